@@ -18,8 +18,9 @@ from aiocoap.numbers.constants import TransportTuning
 
 PROP = "C03"
 LEVEL = "model_checking"
-RULE = ("E2: per (source, TransportTuning, random-seam answer) scenario every run with <= K injected acknowledgements "
-        "(menu: matching ACK/RST/piggybacked response, ACK with mid+-1, ACK/RST from another port or IP) at every "
+RULE = ("E2: per (source: client request, library-generated Block2 follow-up request, separate response, notification; TransportTuning; "
+        "random-seam answer) scenario every run with <= K injected acknowledgements "
+        "(menu: matching ACK/RST/piggybacked response, ACK with mid+-1, ACK/RST from another port or IP, the separate response to an older request) at every "
         "inter-timer position (right after a firing, midpoint, tie instant before the timer); distinct = distinct schedule")
 ASSUMPTIONS = [
     "virtual clock: timers fire exactly at their deadline; ties are explored on both sides explicitly",
@@ -32,7 +33,7 @@ CLIENT = ("2001:db8::c", 40000)
 OTHERPORT = ("2001:db8::1", 5684)
 OTHERIP = ("2001:db8::2", 5683)
 
-INJ = ("ack", "rst", "resp", "ackresp-badtoken", "ack+1", "ack-1", "ack@port", "ack@ip", "rst@port")
+INJ = ("ack", "rst", "resp", "ackresp-badtoken", "ack+1", "ack-1", "ack@port", "ack@ip", "rst@port", "oldresp-non", "oldresp-con")
 POS = ("now", "mid", "tie")
 
 
@@ -69,7 +70,10 @@ class ConScenario(Scenario):
         st.bystander = None
         tt = tuning(p["ACK_TIMEOUT"], p["ACK_RANDOM_FACTOR"], p["MAX_RETRANSMIT"])
         st.tt = tt
-        if p["source"] == "request":
+        st.expect_payload = b"ok"
+        st.old = None
+        st.allowed_acks = set()
+        if p["source"] in ("request", "block2"):
             st.node = w.add_context("cli", *CLIENT)
             st.peer = w.add_peer(Silent("srv", *SERVER))
             if pre == "strayack":
@@ -78,10 +82,31 @@ class ConScenario(Scenario):
                 w.inject(SERVER, CLIENT, rc.encode((rc.RST, 0, 0x1000, b"", [], b"")))
             elif pre == "collide":
                 w.inject(SERVER, CLIENT, rc.encode((rc.NON, 1, 0x4242, b"\x01", [(11, b"nothing")], b"")))
+            elif pre == "older":
+                # an older request to the same endpoint, already acknowledged, still waiting for its separate response
+                om = Message(code=GET, uri_path=["old"])
+                om.remote = st.node.remote(SERVER)
+                st.old = st.node.ctx.request(om, handle_blockwise=False)
+                w.loop.settle()
+                od = [d for d in w.sent if d.src == CLIENT][-1].data
+                st.old_token = od[4:4 + (od[0] & 15)]
+                w.inject(SERVER, CLIENT, rc.encode((rc.ACK, 0, (od[2] << 8) | od[3], b"", [], b"")))
+                w.rnd_mm.uniform_calls.clear()
             w.sent.clear()
             m = Message(code=GET, uri_path=["x"], transport_tuning=tt)
             m.remote = st.node.remote(SERVER)
-            st.req = st.node.ctx.request(m, handle_blockwise=False)
+            if p["source"] == "block2":
+                # the CON under test is the follow-up request for block 1 that the library generates itself
+                st.req = st.node.ctx.request(m)
+                w.loop.settle()
+                fd = [d for d in w.sent if d.src == CLIENT][-1].data
+                w.sent.clear()
+                w.rnd_mm.uniform_calls.clear()
+                w.pool.clear()
+                w.inject(SERVER, CLIENT, rc.encode((rc.ACK, 69, (fd[2] << 8) | fd[3], fd[4:4 + (fd[0] & 15)], [(23, rc.block(0, True, 0))], b"0123456789abcdef")))
+                st.expect_payload = b"0123456789abcdefok"
+            else:
+                st.req = st.node.ctx.request(m, handle_blockwise=False)
             w.loop.settle()
             # a bystander: an unrelated request to another endpoint, registered later, that must not be touched
             b = Message(code=GET, uri_path=["by"], _mtype=1)
@@ -162,7 +187,9 @@ class ConScenario(Scenario):
                 if pos == "tie" and tn - w.loop.time() < 1e-9:
                     continue
                 for inj in INJ:
-                    if inj in ("resp", "ackresp-badtoken") and self.params["source"] != "request":
+                    if inj in ("resp", "ackresp-badtoken") and self.params["source"] not in ("request", "block2"):
+                        continue
+                    if inj.startswith("oldresp") and st.old is None:
                         continue
                     en.append(("inj:%s:%s" % (pos, inj), 1))
         return en
@@ -184,7 +211,11 @@ class ConScenario(Scenario):
         if kind == "rst":
             return src, (rc.RST, 0, mid, b"", [], b"")
         if kind == "resp":
-            return src, (rc.ACK, 69, mid, st.token, [], b"ok")
+            return src, (rc.ACK, 69, mid, st.token, [(23, rc.block(1, False, 0))] if self.params["source"] == "block2" else [], b"ok")
+        if kind in ("oldresp-non", "oldresp-con"):
+            # the separate response to the *older* request: it answers (and confirms) that one only
+            st.allowed_acks.add(0x7001)
+            return src, (rc.NON if kind.endswith("non") else rc.CON, 69, 0x7001, st.old_token, [], b"old")
         if kind == "ackresp-badtoken":
             # an ACK with the right ID from the right endpoint acknowledges the message whatever it carries
             return src, (rc.ACK, 69, mid, b"\xde\xad", [], b"stray")
@@ -243,7 +274,7 @@ class ConScenario(Scenario):
                 if f.done():
                     st.violations.append(Violation("request-ended-early", "pending", repr(f), "tokenmanager.py", {}, key=str(end)))
             elif end == "resp":
-                if not (f.done() and f.exception() is None and f.result().payload == b"ok"):
+                if not (f.done() and f.exception() is None and f.result().payload == st.expect_payload):
                     st.violations.append(Violation("response-not-delivered", "result", repr(f), "tokenmanager.py", {}, key="resp"))
             elif end == "rst":
                 if not (f.done() and isinstance(f.exception(), error.MessageError)):
@@ -290,7 +321,8 @@ class ConScenario(Scenario):
             st.violations.append(Violation("loop-exception", "none", core.exc_desc(e) if e else msg,
                                            core.site_of(e) if e else "loop", {}, key=type(e).__name__ if e else msg[:40]))
         # replies the endpoint itself sent besides the copies: nothing is expected for empty ACK/RST
-        others = [d for d in w.sent if d.src == st.node.addr and d not in cp and d.t > st.t0 and d.dst == st.peer_addr]
+        others = [d for d in w.sent if d.src == st.node.addr and d not in cp and d.t > st.t0 and d.dst == st.peer_addr
+                  and not (d.data[0] & 0x30 == 0x20 and ((d.data[2] << 8) | d.data[3]) in st.allowed_acks)]
         if others:
             st.violations.append(Violation("unexpected-transmission", "none", [repr(d) for d in others], "messagemanager.py", {}, key="tx"))
 
@@ -313,7 +345,9 @@ def scenarios(tier, K):
                     continue
                 out.append(ConScenario(src, a, f, m, u, K))
     # forced collisions of message IDs (default tuning only)
-    for src, pres in (("request", ("strayack", "strayrst", "collide")), ("separate", ("collide",)), ("notification", ("collide",))):
+    for (a, f, m) in ((0.5, 1.0, 1), (7, 3.0, 4), (2, 1.5, 4)):
+        out.append(ConScenario("block2", a, f, m, "hi", K))
+    for src, pres in (("request", ("strayack", "strayrst", "collide", "older")), ("separate", ("collide",)), ("notification", ("collide",))):
         for pre in pres:
             for (a, f, m) in ((2, 1.5, 4), (0.5, 1.0, 1)):
                 out.append(ConScenario(src, a, f, m, "lo", K, pre))
